@@ -583,7 +583,13 @@ def r_noheap_until_spill(F, R, cat=None):
         fty = [f["ty"]["s"] for f in cat.fields(adt) if f["name"] == first]
         if not fty or fty[0] != "impls::index::Stride":
             continue
-        for b in cat.methods(adt, "with_capacity"):
+        ctors = list(cat.methods(adt, "with_capacity"))
+        # every other constructor of the type (an override of the provided `merge_regions`, ..): a
+        # fresh container has spilled nothing yet, whatever it was sized from
+        ctors += [x for x in F.bodies.values() if x.self_adt == adt and x.kind == "AssocFn" and not x.in_tests() and not x.derived
+                  and x.name in ("merge_regions", "new", "with_capacity_and_hint", "from_capacity") and x not in ctors
+                  and not (x.nargs >= 1 and x.debug_names.get(1) == "self")]
+        for b in ctors:
             n += 1
             R.saw(b)
             ctx, effs = cat.effects(b)
@@ -608,7 +614,7 @@ def r_noheap_until_spill(F, R, cat=None):
                         if tag not in EMPTY_CTORS:
                             ok = False
                             why.append("returns %s::%s" % tag)
-            R.check("R-NOHEAP", b.label(), ok, construct="with_capacity allocates nothing before a spill",
+            R.check("R-NOHEAP", b.label(), ok, construct="%s allocates nothing before a spill" % b.name,
                     where=b.where(), detail="; ".join(why) or "second level starts empty")
         # every &mut self method (reserve, and bulk paths such as extend): capacity for the second
         # level only once something spilled
